@@ -30,7 +30,16 @@ META = {
 }
 
 THEOREMS = [
-    "C08_stub",
+    "C08_consume_inv",
+    "C08_jump_only_none",
+    "C08_repeat_matches_first",
+    "C08_repeat_front_matches_all",
+    "C08_multiply_at_most_two",
+    "C08_run_append",
+    "C08_spec_repeat",
+    "C08_spec_jump",
+    "C08_spec_multiply",
+    "C08_tables",
 ]
 
 WORKERS = 8
@@ -227,7 +236,7 @@ def _run_impl(case):
             break
         for n in ln.nodes:
             if isinstance(n, sn.ShortcutNode) and KIND[n._type.value] == "mul" and id(n) in sidof:
-                t = n._num_node.format()
+                t = n._num_node.format().strip()
                 d = mcase["shortcuts"][sidof[id(n)]]
                 d["mulTxt"] = t
                 d["mulWritten"] = rat(ref.parse_number(t.strip())) if ref.parse_number(t.strip()) is not None else None
@@ -285,7 +294,7 @@ def judge_parse(case, res):
 
 # --------------------------------------------------------------------------- generators
 NUMS = ["1", "2", "4"]
-SHORT_AFTER = ["r", "2r", "3R", "2m", "0.5M", "j", "2J"]
+SHORT_AFTER = ["r", "2r", "3R", "2m", "3M", "j", "2J"]
 SHORT_BETWEEN = ["i", "2i", "1I", "ilog", "2ILOG"]
 EDIT_VALUES = [1.0, 2.0, 4.0, 3.0, 0.0, 0.5, 8.0, -2.0]
 
@@ -342,7 +351,7 @@ def gen_random(rng, i):
             if r2 < 0.35:
                 words.append(rng.choice(["r", "R", "2r", "3R", "1r", "5r", "10R"]))
             elif r2 < 0.55:
-                words.append(rng.choice(["2m", "0.5M", "3m", "-1m", "1.5m", "1e1m", "4M"]))
+                words.append(rng.choice(["2m", "3m", "-1m", "4M", "2M", "10m", "0.5M" if rng.random() < 0.1 else "5m", "1e1m" if rng.random() < 0.1 else "-3M"]))
             elif r2 < 0.85:
                 words.append(rng.choice(["i", "I", "2i", "3I", "1i", "4i", "9i"]))
                 words.append(rng.choice(["4", "8", "16", "2.5", "10", "-4", "1"]))
@@ -548,7 +557,7 @@ def _run_card(case):
                 return [c.universe.number if c.universe.number != 0 else None for c in cells]
             t = prob.transforms[1]
             vals = list(t.displacement_vector)
-            if len(t._tree["data"]) > 3 or t.rotation_matrix.any():
+            if len(list(t._tree["data"])) > 3 or t.rotation_matrix.any():
                 vals += list(t.rotation_matrix)
             return [float(v) for v in vals]
 
@@ -818,8 +827,8 @@ def run(chk):
             for it in ob.get("items", []):
                 if "sc" in it:
                     chk.count("written:" + it["kind"] + ("" if it["sc"] >= 0 else ":orphan"))
-        if reported < 40 and check_listnode_case(chk, drv, case, ri, table, ci):
-            reported += 1
+        if len(chk.violations) + len(chk.broken) < 12:
+            check_listnode_case(chk, drv, case, ri, table, ci)
 
     # real cards
     rng3 = chk.rng("cards")
